@@ -18,6 +18,12 @@ def walkVals : Value → List String → Option Value
 theorem getAttr_undef (v : Value) (a : List Char) (h : v.isUndef = true) : v.getAttr a = none := by
   cases v <;> simp [Value.isUndef] at h <;> rfl
 
+/-- the three "undefined" errors, the ones a fused `LoadPath` / `WritePath` can exchange for those
+of the sequence it replaces (missing root / field / undefined rendered) -/
+def isUndefErr : RErr → Bool
+  | .undefinedVariable | .undefinedField | .undefinedRender => true
+  | _ => false
+
 /-- what the interpreter loop returns when a turn ends in `raise` -/
 def raiseRun (env : Env) (vm : VmCtx) (c : Chunk) (e : RErr) : RunRes :=
   if reportTargetOk env vm c then .err e else .panic "interpreter.rs:934 tera.templates[chunk.name]"
@@ -28,14 +34,14 @@ variable (env : Env) (vm : VmCtx) (c' : Chunk) (k : Nat)
 theorem walkLoad_vals : ∀ (attrs : List String) (cur : Value) (j : Nat),
     (∀ i, i ≤ j + attrs.length → c'.hasSpanAt k i = true) →
     (∀ v, walkVals cur attrs = some v → walkLoad env vm c' k cur j attrs = .val v) ∧
-    (walkVals cur attrs = none → ∃ e, walkLoad env vm c' k cur j attrs = .stop (raise env vm c' e))
+    (walkVals cur attrs = none → ∃ e, walkLoad env vm c' k cur j attrs = .stop (raise env vm c' e) ∧ isUndefErr e = true)
   | [], cur, j, _ => by simp [walkVals, walkLoad]
   | a :: rest, cur, j, hsp => by
     have h1 : c'.hasSpanAt k (j + 1) = true := hsp _ (by simp)
     by_cases hu : cur.isUndef = true
     · simp only [walkVals, walkLoad, hu, ↓reduceIte, reduceCtorEq, false_implies, implies_true, true_and,
         errorAt, h1]
-      exact fun _ => ⟨_, rfl⟩
+      exact fun _ => ⟨_, rfl, rfl⟩
     · cases hg : cur.getAttr a.toList with
       | some next =>
         simp only [walkVals, walkLoad, hu, Bool.false_eq_true, ↓reduceIte, hg, Option.getD_some]
@@ -47,14 +53,14 @@ theorem walkLoad_vals : ∀ (attrs : List String) (cur : Value) (j : Nat),
         | cons b r =>
           simp only [walkVals, Value.isUndef, ↓reduceIte, reduceCtorEq, false_implies, implies_true, true_and,
             ne_eq, not_false_eq_true, errorAt, h1]
-          exact fun _ => ⟨_, rfl⟩
+          exact fun _ => ⟨_, rfl, rfl⟩
 
 theorem fused_load (n : String) (attrs : List String) (hne : attrs ≠ [])
     (hsp : ∀ j, j ≤ attrs.length → c'.hasSpanAt k j = true) (S : State) :
     (∀ v, walkVals (S.scope.getValue n) attrs = some v →
       stepLoadPath env vm c' (n :: attrs) k S = .next (k + 1) (S.push v (k, k))) ∧
     (walkVals (S.scope.getValue n) attrs = none →
-      ∃ e, stepLoadPath env vm c' (n :: attrs) k S = raise env vm c' e) := by
+      ∃ e, stepLoadPath env vm c' (n :: attrs) k S = raise env vm c' e ∧ isUndefErr e = true) := by
   have hw := walkLoad_vals env vm c' k attrs (S.scope.getValue n) 0 (by intro i hi; apply hsp; omega)
   have h0 : c'.hasSpanAt k 0 = true := hsp 0 (Nat.zero_le _)
   simp only [stepLoadPath, hne, ↓reduceIte, ne_eq, not_false_eq_true]
@@ -63,17 +69,17 @@ theorem fused_load (n : String) (attrs : List String) (hne : attrs ≠ [])
     | nil => exact absurd rfl hne
     | cons a r =>
       simp only [hu, ↓reduceIte, walkVals, reduceCtorEq, false_implies, implies_true, true_and, errorAt, h0]
-      exact fun _ => ⟨_, rfl⟩
+      exact fun _ => ⟨_, rfl, rfl⟩
   · simp only [hu, Bool.false_eq_true, ↓reduceIte]
     constructor
     · intro v hv; rw [hw.1 v hv]
-    · intro hv; obtain ⟨e, he⟩ := hw.2 hv; rw [he]; exact ⟨e, rfl⟩
+    · intro hv; obtain ⟨e, he, hu⟩ := hw.2 hv; rw [he]; exact ⟨e, rfl, hu⟩
 
 theorem walkWrite_vals : ∀ (attrs : List String) (cur : Value) (j : Nat),
     (∀ i, i ≤ j + attrs.length → c'.hasSpanAt k i = true) →
     (∀ v, walkVals cur attrs = some v → v.isUndef = false → walkWrite env vm c' k cur j attrs = .val v) ∧
     ((walkVals cur attrs = none ∨ ∃ v, walkVals cur attrs = some v ∧ v.isUndef = true) →
-      (∃ e, walkWrite env vm c' k cur j attrs = .stop (raise env vm c' e)) ∨
+      (∃ e, walkWrite env vm c' k cur j attrs = .stop (raise env vm c' e) ∧ isUndefErr e = true) ∨
       (∃ v, walkWrite env vm c' k cur j attrs = .val v ∧ v.isUndef = true))
   | [], cur, j, _ => by
     simp only [walkVals, walkWrite, Option.some.injEq, reduceCtorEq, false_or]
@@ -92,7 +98,7 @@ theorem walkWrite_vals : ∀ (attrs : List String) (cur : Value) (j : Nat),
       exact walkWrite_vals rest next (j + 1) (by intro i hi; apply hsp; simp only [List.length_cons]; omega)
     | none =>
       simp only [walkWrite, hg, errorAt, h1, ↓reduceIte]
-      refine ⟨?_, fun _ => Or.inl ⟨_, rfl⟩⟩
+      refine ⟨?_, fun _ => Or.inl ⟨_, rfl, rfl⟩⟩
       intro v hv hvu
       exfalso
       simp only [walkVals, hg, Option.getD_none] at hv
@@ -111,14 +117,14 @@ theorem fused_write (n : String) (attrs : List String) (hn : n ≠ MAGICAL_DUMP_
       stepWritePath env vm c' (n :: attrs) k S = .next (k + 1) (emitValue env vm v S)) ∧
     ((walkVals (S.scope.getValue n) attrs = none ∨
         ∃ v, walkVals (S.scope.getValue n) attrs = some v ∧ v.isUndef = true) →
-      ∃ e, stepWritePath env vm c' (n :: attrs) k S = raise env vm c' e) := by
+      ∃ e, stepWritePath env vm c' (n :: attrs) k S = raise env vm c' e ∧ isUndefErr e = true) := by
   have hw := walkWrite_vals env vm c' k attrs (S.scope.getValue n) 0 (by intro i hi; apply hsp; omega)
   have h0 : c'.hasSpanAt k 0 = true := hsp 0 (Nat.zero_le _)
   have hl : c'.hasSpanAt k attrs.length = true := hsp _ (Nat.le_refl _)
   simp only [stepWritePath, lookupName_of_ne _ n hn, ite_self]
   by_cases hu : (S.scope.getValue n).isUndef = true
   · simp only [hu, ↓reduceIte, errorAt, h0]
-    refine ⟨?_, fun _ => ⟨_, rfl⟩⟩
+    refine ⟨?_, fun _ => ⟨_, rfl, rfl⟩⟩
     intro v hv hvu
     exfalso
     cases attrs with
@@ -130,9 +136,9 @@ theorem fused_write (n : String) (attrs : List String) (hn : n ≠ MAGICAL_DUMP_
       rw [hw.1 v hv hvu]
       simp [hvu]
     · intro h
-      rcases hw.2 h with ⟨e, he⟩ | ⟨v, he, hvu⟩
-      · rw [he]; exact ⟨e, rfl⟩
-      · rw [he]; simp only [hvu, ↓reduceIte, errorAt, hl]; exact ⟨_, rfl⟩
+      rcases hw.2 h with ⟨e, he, hu⟩ | ⟨v, he, hvu⟩
+      · rw [he]; exact ⟨e, rfl, hu⟩
+      · rw [he]; simp only [hvu, ↓reduceIte, errorAt, hl]; exact ⟨_, rfl, rfl⟩
 
 end fused
 
@@ -176,9 +182,9 @@ theorem attrs_run (st : State) (rest0 : List Slot) :
         = runLoop rec env vm c n (i0 + 1 + taken.length) (topState st v (i0 + taken.length) rest0))) ∧
     (walkVals cur (taken.map (·.1)) = none →
       (∀ n, runLoop rec env vm c n (i0 + 1) (topState st cur i0 rest0) = .outOfFuel ∨
-        ∃ e, runLoop rec env vm c n (i0 + 1) (topState st cur i0 rest0) = raiseRun env vm c e) ∧
+        ∃ e, runLoop rec env vm c n (i0 + 1) (topState st cur i0 rest0) = raiseRun env vm c e ∧ isUndefErr e = true) ∧
       (∀ n, taken.length ≤ n →
-        ∃ e, runLoop rec env vm c n (i0 + 1) (topState st cur i0 rest0) = raiseRun env vm c e))
+        ∃ e, runLoop rec env vm c n (i0 + 1) (topState st cur i0 rest0) = raiseRun env vm c e ∧ isUndefErr e = true))
   | [], i0, cur, _, _ => by
     simp only [List.map_nil, walkVals, Option.some.injEq, List.length_nil, Nat.not_lt_zero, false_implies,
       implies_true, Nat.add_zero, true_and, reduceCtorEq]
@@ -210,11 +216,11 @@ theorem attrs_run (st : State) (rest0 : List Slot) :
       · intro n
         cases n with
         | zero => exact Or.inl (runLoop_zero_some rec env vm c _ hc0)
-        | succ n => exact Or.inr ⟨_, runLoop_succ_raise rec env vm c n hc0 hstep⟩
+        | succ n => exact Or.inr ⟨_, runLoop_succ_raise rec env vm c n hc0 hstep, rfl⟩
       · intro n hn
         cases n with
         | zero => simp at hn
-        | succ n => exact ⟨_, runLoop_succ_raise rec env vm c n hc0 hstep⟩
+        | succ n => exact ⟨_, runLoop_succ_raise rec env vm c n hc0 hstep, rfl⟩
     · have hstep : step rec env vm c (.loadAttr x.1 false, x.2) (i0 + 1) (topState st cur i0 rest0)
           = .next (i0 + 1 + 1) (topState st ((cur.getAttr x.1.toList).getD .undef) (i0 + 1) rest0) := by
         simp only [step, stepLoadAttr, topState, Bool.false_and, Bool.false_eq_true, ↓reduceIte, hu]
@@ -261,8 +267,8 @@ theorem load_group_run (st : State) (pc : Nat) (n : String) (s : List Span)
         = runLoop rec env vm c m (pc + 1 + taken.length) (st.push v (pc + taken.length, pc + taken.length)))) ∧
     (walkVals (st.scope.getValue n) (taken.map (·.1)) = none →
       (∀ m, runLoop rec env vm c m pc st = .outOfFuel ∨
-        ∃ e, runLoop rec env vm c m pc st = raiseRun env vm c e) ∧
-      (∀ m, taken.length + 1 ≤ m → ∃ e, runLoop rec env vm c m pc st = raiseRun env vm c e)) := by
+        ∃ e, runLoop rec env vm c m pc st = raiseRun env vm c e ∧ isUndefErr e = true) ∧
+      (∀ m, taken.length + 1 ≤ m → ∃ e, runLoop rec env vm c m pc st = raiseRun env vm c e ∧ isUndefErr e = true)) := by
   have hstep : step rec env vm c (.loadName n, s) pc st
       = .next (pc + 1) (topState st (st.scope.getValue n) pc st.stack) := by
     simp only [step, lookupName_of_ne _ n hn]; rfl
@@ -305,8 +311,8 @@ theorem write_group_run (st : State) (pc : Nat) (n : String) (s w : List Span)
     ((walkVals (st.scope.getValue n) (taken.map (·.1)) = none ∨
         ∃ v, walkVals (st.scope.getValue n) (taken.map (·.1)) = some v ∧ v.isUndef = true) →
       (∀ m, runLoop rec env vm c m pc st = .outOfFuel ∨
-        ∃ e, runLoop rec env vm c m pc st = raiseRun env vm c e) ∧
-      (∀ m, taken.length + 2 ≤ m → ∃ e, runLoop rec env vm c m pc st = raiseRun env vm c e)) := by
+        ∃ e, runLoop rec env vm c m pc st = raiseRun env vm c e ∧ isUndefErr e = true) ∧
+      (∀ m, taken.length + 2 ≤ m → ∃ e, runLoop rec env vm c m pc st = raiseRun env vm c e ∧ isUndefErr e = true)) := by
   have h := load_group_run rec env vm c st pc n s taken hn hcode0 hcode hsp
   have hlast : c.hasSpan (pc + taken.length) = true := hsp _ (Nat.le_refl _)
   constructor
@@ -347,11 +353,11 @@ theorem write_group_run (st : State) (pc : Nat) (n : String) (s w : List Span)
           · right
             have e : m = (m - (taken.length + 2) + 1) + (taken.length + 1) := by omega
             rw [e, hb, runLoop_succ_raise rec env vm c _ hcodew hstep]
-            exact ⟨_, rfl⟩
+            exact ⟨_, rfl, rfl⟩
       · intro m hm
         have e : m = (m - (taken.length + 2) + 1) + (taken.length + 1) := by omega
         rw [e, hb, runLoop_succ_raise rec env vm c _ hcodew hstep]
-        exact ⟨_, rfl⟩
+        exact ⟨_, rfl, rfl⟩
 
 end unfused
 
